@@ -112,6 +112,9 @@ def run_job(job: dict) -> dict:
             )
             res["modules_order"] = list(api.modules.keys())
             res["api"] = api.to_dict()
+            if job.get("encode_api", True):
+                import apienc
+                res["api_sx"] = vlib.sx(apienc.api_sx(api))
             if job.get("keep_api"):
                 res["_api_obj"] = api
             if out is not None:
